@@ -11,7 +11,7 @@ import itertools
 
 import numpy as np
 
-from checks.common import hash_tag, relayout, xf_build, xf_names, canon_value, quiet_call
+from checks.common import hash_tag, relayout, xf_build, xf_names, canon_value, quiet_call, si_names
 from qmc import gen as G
 from qmc import oracle as O
 from qmc.loader import load
@@ -24,8 +24,8 @@ RULE = (
     "whose invariant held at both ends, traces = sweeps fully validated; non-trivial = A non-zero; distinct = sha1(input, variant, tol)"
 )
 BOUNDS = {
-    "quick": "n<=3 (n=4 for 4 classes), 17 input classes, 19 variant cells (incl. experimental window=2 < n), budgets {0,1,2,3,5,10,50,300}, tol {1e-10,1e-6}",
-    "thorough": "n<=5, budgets up to 500, 2 fill rows",
+    "quick": "n<=3 (n=4 for 4 classes), 17 input classes, 19 variant cells (incl. experimental window=2 < n), budgets {0,1,2,3,5,10,50,300}, tol {1e-10,1e-6}; every variant on strided exhaustive small-integer inputs (3x3 real over {-1,0,1} and Hermitian over {0,1,-1,i,j,k}, every 81st)",
+    "thorough": "n<=5, budgets up to 500, 2 fill rows; small-integer inputs every 9th",
 }
 WALL_BUDGET = {"quick": 900, "thorough": 3400}
 ASSUMPTIONS = ["similarity budget: (2^10 u n^2 iterations + iterations*n*tol) max(1,||A||): each deflation may discard an entry of size <= tol*scale"]
@@ -73,6 +73,13 @@ def cases(tier, seed):
         for blocks in ((2, 3), (3, 3), (2, 2, 2), (3, 1, 2), (1, 2, 2), (2, 2, 1)):
             cls = "bt:" + "-".join(map(str, blocks))
             out.append({"key": f"{vname(fn, kw)}/{cls}/n={sum(blocks)}/tol=1e-10", "vi": vi, "cls": cls, "n": sum(blocks), "tol": 1e-10, "tier": tier})
+    # exhaustive small-integer inputs (strided): every variant on real 3x3 matrices over {-1,0,1} and Hermitian 3x3 matrices over {0,1,-1,i,j,k}
+    st = 81 if tier == "quick" else 9
+    for vi, (fn, kw) in enumerate(VARIANTS):
+        for nm in si_names("r3", 3, 3, False, st, 1):
+            out.append({"key": f"{vname(fn, kw)}/xf:{nm}/n=3/tol=1e-10", "vi": vi, "cls": "xf:" + nm, "n": 3, "tol": 1e-10, "tier": tier, "_fixed": True})
+        for nm in si_names("q6", 3, 3, True, st, 1):
+            out.append({"key": f"{vname(fn, kw)}/xfh:{nm}/n=3/tol=1e-10", "vi": vi, "cls": "xfh:" + nm, "n": 3, "tol": 1e-10, "tier": tier, "_fixed": True})
     return out
 
 
